@@ -16,7 +16,7 @@ from checks import _pool as P
 from mc.core import Out, drive
 
 PROP = "C10"
-CHAINS = ["P16-chain-after-start", "P17-chain-before-start", "P18-chain-after-restart", "P23-chain3", "P11-saturate",
+CHAINS = ["P25-task-then-chain", "P26-two-tasks-then-chain", "P27-chain-then-task-restart", "P16-chain-after-start", "P17-chain-before-start", "P18-chain-after-restart", "P23-chain3", "P11-saturate",
           "P7-more-prequeued-than-workers", "P4-gated-then-plain", "P12-bounded-queue", "P24-enq-during-idle-retire",
           "P3-idle-timeout-then-enqueue", "P9-start-races-submitter", "P2-two-submitters"]
 HEAVY = ["P19-chain-with-second-submitter", "P22-backlog-then-chain"]
@@ -69,7 +69,7 @@ def leg_ctor(part, tier, shard, nshards):
 
 def harnesses(tier):
     def has_two_enq(prog):
-        return sum(1 for o in prog if o[0] == "enq") >= 2
+        return sum(1 for o in prog if o[0] in ("enq", "chain")) >= 2
 
     if tier == "quick":
         h = P.curated_h(CHAINS + HEAVY, [(1, 0), (1, 1), (2, 0), (2, 1)], "sync")
